@@ -270,6 +270,35 @@ check_iv_unique(int d)
 	vf_stat("iv_sets_checked_unique", 1);
 }
 
+/* move the record sequence numbers of a quiescent connection forward (both engines and the independent decoder):
+ * a 64-bit counter cannot be driven to 2^32 or 2^63 by sending records, the arithmetic around those values is
+ * exercised by starting from just below them */
+static uint64_t *
+seq_field(br_ssl_engine_context *e, int out, int enc)
+{
+	if (enc <= 2) return out ? &e->out.cbc.seq : &e->in.cbc.seq;
+	if (enc == 9) return out ? &e->out.chapol.seq : &e->in.chapol.seq;
+	if (enc >= 5 && enc <= 8) return out ? &e->out.ccm.seq : &e->in.ccm.seq;
+	return out ? &e->out.gcm.seq : &e->in.gcm.seq;
+}
+
+static void
+seq_jump(tp_pair *p, int enc, uint64_t base0, uint64_t base1)
+{
+	if (*seq_field(p->c.eng, 1, enc) != SM.expect_seq[0] || *seq_field(p->s.eng, 0, enc) != SM.expect_seq[0]
+		|| *seq_field(p->s.eng, 1, enc) != SM.expect_seq[1] || *seq_field(p->c.eng, 0, enc) != SM.expect_seq[1])
+	{
+		TP_VIOL("harness-assert:sequence-fields", "engine sequence counters are not where the decoder expects them before the jump");
+		return;
+	}
+	*seq_field(p->c.eng, 1, enc) = base0; *seq_field(p->s.eng, 0, enc) = base0;
+	*seq_field(p->s.eng, 1, enc) = base1; *seq_field(p->c.eng, 0, enc) = base1;
+	SM.pm.m.rm.cs[0].seq = base0; SM.pm.m.rm.cs[1].seq = base1;
+	SM.expect_seq[0] = base0; SM.expect_seq[1] = base1;
+	vf_stat("sequence_jumps", 1);
+	vf_distinct("sequence_base", "%d %llx/%llx", enc, (unsigned long long)base0, (unsigned long long)base1);
+}
+
 static void
 long_session(uint16_t suite, unsigned version, int nrecords, int nreneg, uint64_t seed)
 {
@@ -298,6 +327,12 @@ long_session(uint16_t suite, unsigned version, int nrecords, int nreneg, uint64_
 	for (seg = 0; seg <= nreneg; seg ++) {
 		int k, per = nrecords / (nreneg + 1);
 		for (k = 0; k < per; k ++) {
+			static const uint64_t bases[5] = { 0xFFFDull, 0xFFFFFFFDull, 0xFFFFFFFFFFFDull, 0x7FFFFFFFFFFFFFFDull, 0xFFFFFFFFFFFF0000ull };
+			/* four times per key: continue from just below 2^16, 2^32, 2^48, 2^63 (and near the top of the range) */
+			if (k > 0 && k % (per / 5 + 1) == per / 10) {
+				int bi = (int)((k / (per / 5 + 1) + seg) % 5);
+				seq_jump(&p, si->enc, bases[bi], bases[(bi + 1) % 5]);
+			}
 			/* one small record in each direction */
 			tp_act_write(&p.c, 1 + vf_below(&r, 30)); tp_act_flush(&p.c, 0);
 			tp_act_write(&p.s, 1 + vf_below(&r, 30)); tp_act_flush(&p.s, 0);
@@ -445,12 +480,12 @@ main(int argc, char **argv)
 	} else if (!strcmp(mode, "uniq")) {
 		/* worker 0 only: needs all connections in one process */
 		static conn_rec recs[1024];
-		static unsigned char pool[5][1024][64];
+		static unsigned char pool[6][1024][64];
 		int i, n = nconn > 1024 ? 1024 : nconn, f;
-		static const char *fname[5] = { "client-random", "server-random", "session-id", "ecdhe-point", "encrypted-premaster" };
+		static const char *fname[6] = { "client-random", "server-random", "session-id", "ecdhe-point", "encrypted-premaster", "client-ecdhe-point" };
 		if (worker != 0) { vf_stat("cases", 0); vf_done(); return 0; }
 		for (i = 0; i < n; i ++) {
-			uint16_t suite = (i & 1) ? 0xC02F : 0x009C;   /* ECDHE_RSA / RSA key exchange */
+			uint16_t suite = (i & 1) ? ((i & 2) ? 0xC02B : 0xC02F) : 0x009C;   /* ECDHE_ECDSA / ECDHE_RSA / RSA key exchange */
 			snprintf(tp_case, sizeof tp_case, "%s connection=%d", mode_desc, i);
 			if (!one_connection(&recs[i], suite, (uint64_t)seed * 100000 + (uint64_t)i, 7, TP_CHUNK_WHOLE)) {
 				TP_VIOL("setup", "connection failed");
@@ -461,12 +496,15 @@ main(int argc, char **argv)
 			memset(pool[2][i], 0, 64); memcpy(pool[2][i], recs[i].sid, 32);
 			memset(pool[3][i], 0, 64); pool[3][i][63] = (unsigned char)i; pool[3][i][62] = (unsigned char)(i >> 8);
 			memset(pool[4][i], 0, 64); pool[4][i][63] = (unsigned char)i; pool[4][i][62] = (unsigned char)(i >> 8);
-			if (i & 1) { memcpy(pool[3][i], recs[i].ske + 4, 56); memset(pool[3][i] + 56, 0, 8); }
+			memset(pool[5][i], 0, 64); pool[5][i][63] = (unsigned char)i; pool[5][i][62] = (unsigned char)(i >> 8);
+			if (i & 1) { memcpy(pool[3][i], recs[i].ske + 4, 56); memset(pool[3][i] + 56, 0, 8);
+				/* the client's ephemeral point: ClientKeyExchange = length byte + point */
+				memcpy(pool[5][i], recs[i].cke + 1, 32); memset(pool[5][i] + 32, 0, 32); }
 			else { memcpy(pool[4][i], recs[i].cke + 2, 56); memset(pool[4][i] + 56, 0, 8); }
 			free(recs[i].wire[0]); free(recs[i].wire[1]);
 			vf_stat("connections", 1);
 		}
-		for (f = 0; f < 5; f ++) {
+		for (f = 0; f < 6; f ++) {
 			int j;
 			/* O(n^2) exact comparison: n <= 1024 */
 			for (i = 0; i < n; i ++) for (j = i + 1; j < n; j ++) {
